@@ -83,3 +83,16 @@ Example c01_bad_not_placed :
                              (Some cfg) 0) o1
     [mkEvent (OpPick 0 2 true [7%N] None false) [] RNoSubConn [] (Some o1)] = false.
 Proof. vm_compute. reflexivity. Qed.
+
+(* why the legality guard is needed: a Done on a call that is still waiting (answered
+   RBadOp by the model, never issued by the harness) desynchronises the monitor's
+   bookkeeping from the balancer; the monitor is false on this illegal model history *)
+Example c01_illegal_history_rejected :
+  let raw := Some (mkConfig 2 4 1 true 0 0 true [(1%N, mkMcfg BIND true); (2%N, mkMcfg BOUND true)]) in
+  let ops := [(OpResolver 1 CfgVal, []); (OpConnState 0 Ready, []); (OpPick 0 1 true [] None false, []);
+              (OpPick 0 1 true [] None false, []); (OpDone 1 DOk [5%N], []); (OpConnState 1 Ready, []);
+              (OpDone 1 DOk [6%N], []); (OpDone 0 DOk [], []); (OpPick 1 2 true [5%N] None false, [])] in
+  map ev_ret (run raw init_bal ops) = [RNone; RNone; RPicked 0; RBlocked; RBadOp; RNone; RNone; RNone; RPicked 0] /\
+  legalb raw ops = false /\
+  monitor P01 raw (observe init_bal) (run raw init_bal ops) = false.
+Proof. vm_compute. repeat split; reflexivity. Qed.
